@@ -383,14 +383,36 @@ class DecimalFieldFormat(AbstractFieldFormat):
     def __init__(self, field_name, is_allowed_to_be_empty, length_text, rule, data_format, empty_value=None):
         super().__init__(field_name, is_allowed_to_be_empty, "", "", data_format, empty_value)
         assert rule is not None, 'to specify "no rule" use "" instead of None'
-        # Excel and ODS data formats have no separator properties, their cells use "." and no grouping.
-        self.decimal_separator = getattr(data_format, "decimal_separator", ".")
-        self.thousands_separator = getattr(data_format, "thousands_separator", "")
+        # Separators set explicitly for this field; None means: use the ones of the data format.
+        self._decimal_separator = None
+        self._thousands_separator = None
         self.valid_range = ranges.DecimalRange(rule, ranges.DEFAULT_DECIMAL_RANGE_TEXT)
         self._length = ranges.DecimalRange(length_text)
 
         self._precision = self.valid_range.precision
         self._scale = self.valid_range.scale
+
+    @property
+    def decimal_separator(self):
+        if self._decimal_separator is not None:
+            return self._decimal_separator
+        # Look it up when needed because the data format property may be set after the field has been declared.
+        # Excel and ODS data formats have no separator properties, their cells use "." and no grouping.
+        return getattr(self.data_format, "decimal_separator", ".")
+
+    @decimal_separator.setter
+    def decimal_separator(self, value):
+        self._decimal_separator = value
+
+    @property
+    def thousands_separator(self):
+        if self._thousands_separator is not None:
+            return self._thousands_separator
+        return getattr(self.data_format, "thousands_separator", "")
+
+    @thousands_separator.setter
+    def thousands_separator(self, value):
+        self._thousands_separator = value
 
     def sql_ansi_type(self):
         return ("decimal", self._scale, self._precision)
